@@ -21,7 +21,7 @@ open Sx
 open Rd
 
 (* ---------------------------------------------------------------- readers *)
-let name_of_sx = function A k -> name_of_string k | x -> bad ("name expected: " ^ Sx.to_string x)
+let name_of_sx = function A "%empty" -> name_of_string "" | A k -> name_of_string k | x -> bad ("name expected: " ^ Sx.to_string x)
 
 let cmd_of_sx (x : Sx.t) : scmd =
   match x with
